@@ -454,6 +454,16 @@ var polBodies = map[string]string{
 	"use":      "USE db_ks",
 }
 
+// bodies whose first keyword is directly followed by a back-quote or by punctuation
+var polGluedBodies = map[string]string{
+	"glued_bq/select":    "SELECT`id`, name FROM t1 WHERE id = 1",
+	"glued_bq/update":    "UPDATE`t1` SET name = 'b' WHERE id = 1",
+	"glued_bq/insert":    "INSERT`t1` (id, name) VALUES (1, 'a')",
+	"glued_bq/replace":   "REPLACE`t1` (id, name) VALUES (1, 'a')",
+	"glued_bq/truncate":  "TRUNCATE`t1`",
+	"glued_punct/select": "SELECT*FROM t1 WHERE id = 1",
+}
+
 var polPreparedBodies = map[string]string{
 	"select":  "SELECT id, name FROM t1 WHERE id = ?",
 	"insert":  "INSERT INTO t1 (id, name) VALUES (?, 'a')",
@@ -578,6 +588,22 @@ func polRender(c *polCase) (sql string, nparams int, err error) {
 		sep = "/**/"
 	case "spcomment":
 		sep = " /* c */ "
+	case "glued_bq", "glued_punct":
+		// nothing between the keyword and what follows: a back-quoted identifier / punctuation
+		g, ok := polGluedBodies[c.Kwsep+"/"+c.Kind]
+		if !ok {
+			return "", 0, fmt.Errorf("kwsep %s not defined for kind %s", c.Kwsep, c.Kind)
+		}
+		if c.Chan == "prepared" {
+			g = strings.Replace(g, "id = 1", "id = ?", 1)
+			g = strings.Replace(g, "VALUES (1,", "VALUES (?,", 1)
+		}
+		tail := strings.TrimPrefix(body, polBodies[c.Kind])
+		if pb, ok := polPreparedBodies[c.Kind]; ok && c.Chan == "prepared" {
+			tail = strings.TrimPrefix(body, pb)
+		}
+		sp2 := strings.IndexAny(g, "`*(")
+		first, rest, sep = g[:sp2], g[sp2:]+tail, ""
 	default:
 		return "", 0, fmt.Errorf("unknown kwsep %q", c.Kwsep)
 	}
@@ -620,6 +646,13 @@ func polRender(c *polCase) (sql string, nparams int, err error) {
 		body = "/*!40000 " + body + " */"
 	case "paren":
 		body = "(" + body + ")"
+	case "ws_300":
+		body = strings.Repeat(" ", 300) + body
+	case "pad_250", "pad_255", "pad_256", "pad_257", "pad_4096":
+		// a leading comment so long that the first keyword starts at byte N
+		var n int
+		fmt.Sscanf(c.Lead, "pad_%d", &n)
+		body = "/*" + strings.Repeat("x", n-5) + "*/ " + body
 	default:
 		return "", 0, fmt.Errorf("unknown lead %q", c.Lead)
 	}
